@@ -24,3 +24,7 @@ func verifEv(kind int, shard uint8, a, b int64, key any) {}
 func verifStagedInc() {}
 
 func verifYield(point int) {}
+
+func verifAdopt(id int) {}
+
+func verifWorkerID[K comparable, V any](c *Cache[K, V], s *shard[K, V]) int { return 0 }
